@@ -314,6 +314,7 @@ Proof.
   - intros s. rewrite eval_PFlag. apply eval_flag_inscope.
   - intros s. rewrite eval_PArg. apply eval_arg_inscope.
   - intros s. rewrite eval_PPos. apply eval_pos_inscope.
+  - intros s. rewrite eval_PAny. apply eval_any_inscope.
   - (* PCon *) destruct fields as [|q1 [|q2 t]].
     + intros s. rewrite eval_PCon_nil. apply inrel_current.
     + intros s. rewrite eval_PCon_one. specialize (H H0). rewrite evals_cons in H. inversion H; subst. auto.
